@@ -516,20 +516,54 @@ func runC15(c *Ctx) {
 	}
 	{
 		// every decoded frame passes handleFrame: nextFrame (sync) and the completion closure of asyncNextFrame
+		// handleFrame itself, or a post-processing helper shared by both readers every nil-error return of which passed
+		// handleFrame
+		verified := map[*ssa.Function]bool{}
+		isHF := func(in ssa.Instruction) bool {
+			if isCallToFn(in, w.handleFrame) {
+				return true
+			}
+			call, ok := in.(*ssa.Call)
+			if !ok {
+				return false
+			}
+			h := call.Call.StaticCallee()
+			if !isHelperOf(w.nextFrame, h) || h == w.handleFrame {
+				return false
+			}
+			if v, done := verified[h]; done {
+				return v
+			}
+			verified[h] = false
+			paths, overflow := enumPaths(h)
+			okAll := !overflow && len(callsToFn(h, w.handleFrame)) > 0
+			for _, path := range paths {
+				ret := path.Ret()
+				if path.Panics || ret == nil || len(ret.Results) == 0 {
+					continue
+				}
+				called := path.count(func(x ssa.Instruction) bool { return isCallToFn(x, w.handleFrame) }) > 0
+				if !called && path.nilness(ret.Results[len(ret.Results)-1]) != "nonnil" {
+					okAll = false
+				}
+			}
+			verified[h] = okAll
+			return okAll
+		}
 		readNext := callsByName(w.nextFrame, "ReadNext")
 		c.check(len(readNext) == 1, w.nextFrame, "ReadNext", w.nextFrame.Pos(), "frames come from CodecConn.ReadNext", "nextFrame does not read from the codec connection exactly once")
 		for _, rc := range readNext {
 			errv := extractOf(rc.(*ssa.Call), 1)
-			hf := callsToFn(w.nextFrame, w.handleFrame)
 			good := false
-			for _, h := range hf {
-				_ = h
-				good = true
-			}
+			eachInstr(w.nextFrame, func(in ssa.Instruction) {
+				if isHF(in) {
+					good = true
+				}
+			})
 			// every return with a nil error passes handleFrame
 			okAll := true
 			for _, r := range returnsOf(w.nextFrame) {
-				passes := !reachableAvoiding(r, func(in ssa.Instruction) bool { return isCallToFn(in, w.handleFrame) })
+				passes := !reachableAvoiding(r, isHF)
 				nonNilOnly := false
 				for _, l := range guardsOf(r.Block()) {
 					if x, eq, ok := l.nilTest(); ok && !eq && errv != nil && strip(x) == errv {
@@ -544,7 +578,7 @@ func runC15(c *Ctx) {
 						if path.Ret() != r {
 							continue
 						}
-						called := path.count(func(in ssa.Instruction) bool { return isCallToFn(in, w.handleFrame) }) > 0
+						called := path.count(isHF) > 0
 						if !called && path.nilness(r.Results[1]) != "nonnil" {
 							okAll = false
 						}
@@ -565,7 +599,7 @@ func runC15(c *Ctx) {
 				pi := newPathIndex(path)
 				handled := false
 				for i, in := range pi.instrs {
-					if isCallToFn(in, w.handleFrame) {
+					if isHF(in) {
 						handled = true
 					}
 					cc, ok := in.(ssa.CallInstruction)
